@@ -59,6 +59,10 @@ def vtext(v):
     return repr(v)
 
 
+class _Prune(Exception):
+    """the path is not one of the (truncated) function: dropped"""
+
+
 class _NeedAtom(Exception):
     def __init__(self, key):
         self.key = key
@@ -365,6 +369,8 @@ class Evaluator:
                 st.env.update(params)
             try:
                 res = self._run_fn_body(body if body is not None else fn.body, st)
+            except _Prune:
+                continue
             except _NeedAtom as na:
                 a1 = dict(assign)
                 a1[na.key] = True
@@ -969,7 +975,10 @@ class Evaluator:
                 if isinstance(v, ast.Constant):
                     parts.append(("lit", str(v.value)))
                 else:
-                    val = self.ev(v.value, st)
+                    vexpr_ = v.value
+                    if isinstance(vexpr_, ast.Call) and isinstance(vexpr_.func, ast.Name) and vexpr_.func.id == "str" and len(vexpr_.args) == 1 and not vexpr_.keywords and v.conversion in (-1, 115) and v.format_spec is None:
+                        vexpr_ = vexpr_.args[0]  # f"{str(x)}" is f"{x}"
+                    val = self.ev(vexpr_, st)
                     if isinstance(val, str) and v.conversion == -1 and v.format_spec is None:
                         parts.append(("lit", val))
                     elif _is_f(val) and v.conversion == -1 and v.format_spec is None:
@@ -1083,8 +1092,21 @@ class Evaluator:
             ast.copy_location(lc_, c.args[0])
             c = ast.Call(func=c.func, args=[lc_], keywords=[])
             ast.fix_missing_locations(ast.copy_location(c, lc_))
+        if isinstance(c.func, ast.Name) and c.func.id in ("sorted", "list", "set", "tuple", "len", "iter", "min", "max", "frozenset", "enumerate") and c.args and isinstance(c.args[0], ast.Call) and isinstance(c.args[0].func, ast.Attribute) and c.args[0].func.attr == "keys" and not c.args[0].args and not c.args[0].keywords and c.func.id not in st.env:
+            # iterating / measuring d.keys() is iterating / measuring d
+            c = ast.Call(func=c.func, args=[c.args[0].func.value] + list(c.args[1:]), keywords=c.keywords)
+            ast.fix_missing_locations(c)
         args = [self.ev(a, st) for a in c.args]
         kwargs = {k.arg: self.ev(k.value, st) for k in c.keywords}
+        if isinstance(c.func, ast.Attribute) and c.func.attr == "add_argument" and kwargs:
+            # argparse: arguments that spell out the library's defaults say nothing; store_const True/False is store_true/false
+            if kwargs.get("action") == "store_const" and kwargs.get("const") is True and kwargs.get("default", None) in (False,):
+                kwargs = {k: v for k, v in kwargs.items() if k not in ("const", "default")}
+                kwargs["action"] = "store_true"
+            elif kwargs.get("action") == "store_const" and kwargs.get("const") is False and kwargs.get("default", None) in (True,):
+                kwargs = {k: v for k, v in kwargs.items() if k not in ("const", "default")}
+                kwargs["action"] = "store_false"
+            kwargs = {k: v for k, v in kwargs.items() if not ((k in ("dest", "default", "const", "nargs", "type", "choices", "metavar") and v is None) or (k == "required" and v is False) or (k == "action" and v == "store"))}
         if isinstance(c.func, ast.Attribute) and c.func.attr == "__contains__" and len(args) == 1 and not kwargs:
             # x.__contains__(y) is the membership test `y in x`: one atom for both spellings
             r0 = self.hooks.on_call(c, ftext, args, kwargs, st)
@@ -1812,6 +1834,8 @@ def _fparts(v):
         return [("lit", v)]
     if _is_f(v):
         return list(v.tag[2])
+    if isinstance(v, Sym) and v.tag and v.tag[0] == "call" and v.tag[1] == "str" and len(v.tag[2]) == 1 and not v.tag[3]:
+        return [("val", vtext(v.tag[2][0]))]  # "lit" + str(x) is f"lit{x}"
     if isinstance(v, Sym) and not v.text.startswith("*"):
         return [("val", v.text)]
     return None
